@@ -29,7 +29,9 @@ ExpectedText(r) ==
       [] r.f = "wordcount" -> I(WordCount(Txt(r)))
       [] r.f = "format" -> S(Format(Txt(r), <<StrOf(A(r).arg)>>))
       [] r.f = "striptags" -> S(StripTags(Txt(r)))
-      [] r.f = "urlencode" -> S(UrlQuote(Txt(r)))
+      [] r.f = "urlencode" -> S(IF IsStr(r.inp) THEN UrlQuote(Txt(r))
+                                ELSE IF r.inp.t = "d" THEN UrlEncodePairs(r.inp.v)
+                                ELSE UrlEncodePairs([k \in 1..Len(r.inp.v) |-> r.inp.v[k].v]))
 
 IsTextFilter(f) == f \in {"truncate", "indent", "trim", "title", "capitalize", "upper", "lower", "replace",
                           "wordcount", "format", "striptags", "urlencode"}
@@ -38,6 +40,7 @@ C23_Text(r) ==
     /\ VEq(r.out, ExpectedText(r))
     /\ r.f = "truncate" => TruncateBounded(Txt(r), A(r).length.v, A(r).leeway.v, r.out.v)
     /\ r.f = "indent" => IndentOnlyInserts(Txt(r), IndentWidth(A(r).width), r.out.v)
+    /\ r.f = "urlencode" => r.out.t = "s" /\ UrlClean(r.out.v)
 
 C23_Center(r) == r.out.t = "s" /\ CenterOK(Txt(r), A(r).width.v, r.out.v)
 
